@@ -335,6 +335,8 @@ def random_pair(ctx, case_seed):
             if s['op'] in ('in', 'out'):
                 if s['op'] == 'in' and s['args'] and rng.random() < 0.2 and 'lit' in s['args'][0]:
                     s = dict(s, args=[{'lit': ('CHANGED', rng.randrange(100))}] + s['args'][1:])
+                elif s['op'] == 'in' and len(s['kwargs']) >= 2 and rng.random() < 0.6:
+                    s = dict(s, kwargs=dict(reversed(list(s['kwargs'].items()))))      # the replayed code writes its keyword arguments in another order
                 out.append({'op': 'try', 'body': [s]})
             else:
                 out.append(s)
